@@ -22,21 +22,24 @@ from rv.util import call, exc_matches
 PROP = 'C18'
 SHARDS = {'quick': 4, 'thorough': 16}
 RULE = ("enumerated: every code b B h H l L i I q Q e f d x prefix > < = @ x count 1-4 x value class "
-        "(limits, zero, +-1, random, out-of-range / float specials incl. subnormal, inf, -0.0, nan) for "
-        "pack, unpack, readlist and Array; every array.array typecode x a pool of ~150 Array dtypes. "
-        "random: multi-code / multi-group formats (spelling variants, counts 0-16, bit offsets 0-7), "
-        "whole-byte contents of 1-16 bytes for the le/be/ne relations (1-byte contents exhaustively, "
-        "2-byte contents exhaustively in the thorough tier), BitArray.byteswap with None / int / list / "
-        "struct-string patterns inside a window, Array.byteswap for struct and named dtypes. "
-        "key = (check, code, prefix, count class, value class) resp. (check, dtype / typecode / "
-        "byte-count / pattern class); non-trivial = at least one item / one whole byte took part")
+        "(limits, zero, +-1, random, out-of-range / float specials incl. subnormal, inf, -0.0, nan, ties) for "
+        "pack, unpack, readlist and Array (tobytes vs struct and array.array, equals, byteswap); every "
+        "array.array typecode x a pool of ~190 Array dtypes through the constructor and extend(); equals() "
+        "against arrays of another width; every 1-byte content (every 2-byte content in the thorough tier) "
+        "for the le/be/ne relations; Array.byteswap over a dtype pool. random: multi-code / multi-group "
+        "formats (spelling variants, counts 0-16, bit offsets 0-7), whole-byte contents of 1-16 bytes read "
+        "and created as uint/int/float/bfloat le/be/ne through several routes, BitArray.byteswap with "
+        "None / 0 / int / list / tuple / struct-string patterns inside optional windows, applied twice. "
+        "key = (check, code or code-group class, prefix, count class, value class) resp. (check, dtype, "
+        "typecode, byte count, pattern class, window class, repeat class); non-trivial = at least one item "
+        "/ one multi-byte unit took part")
 ANCHORS = ['structparser', 'parse_single_struct_token', 'preprocess_tokens', 'intle2bitstore',
            'float2bitstore', 'Bits._getuintle', 'Bits._getintle', 'Bits._getfloatle', 'Bits._getbfloatle',
            'BitArray.byteswap', 'Array.byteswap', 'Array.extend', 'Array.equals', 'pack', 'Bits.unpack']
 REQUIRED_OPS = ['pack', 'unpack', 'readlist', 'Array(values)', 'Array(bytes)', 'Array.byteswap',
                 'Array(array)', 'extend(array)', 'Array.equals', 'le-read', 'ne-read', 'be-read',
                 'le-create', 'ne-create', 'BitArray.byteswap']
-MIN_EVALS = {'quick': 40000, 'thorough': 800000}
+MIN_EVALS = {'quick': 150000, 'thorough': 5000000}
 ASSUMPTIONS = ["'@' is judged against struct's '=' form (documented synonym: standard sizes, no padding, l/L = 4 bytes)",
                'only values struct itself accepts for the code (in-range floats; ints for integer codes); '
                'out-of-range integers must raise ValueError where struct raises struct.error',
@@ -626,6 +629,8 @@ def judge_arr_in(ctx, c):
     order_ok = order in ('none', 'ne', 'x8') or order == ('le' if NATIVE_LE else 'be')
     match = kind_ok and width_ok and order_ok
     unspecified = match and order == 'x8'
+    if unspecified:
+        ctx.extra['unspecified_x8_cases'] = ctx.extra.get('unspecified_x8_cases', 0) + 1
     pre = [dec(v) for v in c['pre']] if c.get('pre') is not None else None
     route = 'extend(array)' if pre is not None else 'Array(array)'
 
